@@ -23,6 +23,7 @@ from .value import (
     MultiValuedValue,
     SequenceValue,
     SubclassValue,
+    TypeAliasValue,
     TypedDictValue,
     TypedValue,
     UnboundMethodValue,
@@ -98,6 +99,9 @@ def _get_boolability_no_mvv(value: Value) -> Boolability:
     if isinstance(value, AnnotatedValue):
         value = value.value
     value = replace_known_sequence_value(value)
+    if isinstance(value, TypeAliasValue):
+        # a PEP 695 alias (`type A = list`) used as the type of a value
+        return get_boolability(value.get_value())
     if isinstance(value, MultiValuedValue):
         # a union nested in a union or wrapped in Annotated (e.g. the fallback of a
         # TypeVar with constraints)
